@@ -50,7 +50,7 @@ pub fn parse_iline(l: &str) -> Option<PInst> {
 pub fn effective_oti(cfg: &SCfg, ob: &ObjRec) -> OtiSpec {
     let mut o = ob.oti.clone().unwrap_or_else(|| cfg.oti.clone());
     if o.enc == 6 || o.enc == 1 {
-        let nb = hk::block_partitioning(o.b as u64, ob.tlen, o.e as u64).3 as u32;
+        let nb = (hk::block_partitioning(o.b as u64, ob.tlen, o.e as u64).3 as u32).max(1);
         if let Some((k, _, n, al)) = o.scheme {
             if (o.enc == 6 && k == 1) || (o.enc == 1 && k == 2) {
                 o.scheme = Some((k, nb, n, al));
